@@ -77,6 +77,16 @@ def environments(tier):
                 for rwd in ('list', 'callable'):
                     d = emit({'n': len(acts), 'ctx': ctx, 'acts': acts, 'rwd': rwd, 'log': list(LOG_ALL), 'extras': 1, 'batch': batch, 'fam': 'F4'})
                     if d: yield d
+    # F5: the 0/1-ambiguity alphabet - action sets holding exactly one of the ints 0/1 next to another int, first or second, alone or followed
+    # by another set (the prediction format is decided on the FIRST prediction), run with every answer format incl. integer one-hot PMFs
+    amb = ['z5', 'o5', '5z', '5o']
+    amb_shapes = [[a] for a in amb] + [[a, b] for a in amb for b in (['bin', 'hi3'] if tier == 'quick' else amb + ['bin', 'hi3', 'int'])]
+    if tier != 'quick': amb_shapes += [['bin', a] for a in amb] + [[a, 'hi3', a] for a in amb]
+    for batch in (0, 2):
+        for acts in amb_shapes:
+            for rwd in (('list',) if tier == 'quick' else ('list', 'binary', 'callable')):
+                d = emit({'n': len(acts), 'ctx': 'dense', 'acts': acts, 'rwd': rwd, 'log': list(LOG_ALL), 'extras': 1, 'batch': batch, 'fam': 'F5'})
+                if d: yield d
     # Batch(3): one batch holding all three interactions (a batch-aware learner's (action,prob,kwargs) rows are then a square answer)
     if tier == 'quick':
         for ctx in ('dense', 'absent'):
@@ -115,10 +125,17 @@ def environments(tier):
                                 if d: yield d
 
 
-def learners(tier, batch):
+def learners(tier, batch, env=None):
     fmts = ['a', 'ap', 'apk'] if tier == 'quick' else ['a', 'ap', 'apk', 'ak']
     out = [{'fmt': f, 'score': s, 'off': 0, 'batch': 'reject'} for s in (False, True) for f in fmts]
     out += [{'fmt': 'ap', 'score': False, 'off': 1, 'batch': 'reject'}]
+    if env is not None and env['acts']:
+        # bare one-hot PMFs with integer entries (the format of the repository's own test learners): everywhere with offset 0,
+        # on the 0/1-ambiguity family with both offsets, with kwargs and with score
+        out += [{'fmt': 'pm', 'score': False, 'off': 0, 'batch': 'reject'}]
+        if env.get('fam') == 'F5':
+            out += [{'fmt': 'pm', 'score': False, 'off': 1, 'batch': 'reject'}, {'fmt': 'pmk', 'score': False, 'off': 0, 'batch': 'reject'},
+                    {'fmt': 'pmk', 'score': True, 'off': 1, 'batch': 'reject'}]
     if batch:
         out += [{'fmt': 'apk', 'score': s, 'off': 0, 'batch': 'rows'} for s in (False, True)]
     return out
@@ -155,7 +172,8 @@ class C06(Check):
         'subject); such failures are classified under their own SafeLearner|bare Mapping action key',
         'rejection = a CobaException before the first learner call and before the first row',
         'learners are deterministic functions of their call index and return the action object they were given; batches are either refused '
-        '(SafeLearner falls back to per-row calls) or answered row-major; PMF answers, dr/dm modes, ope_loss, torch batches are outside the alphabet',
+        '(SafeLearner falls back to per-row calls) or answered row-major; PMF answers are bare one-hot PMFs with integer entries (so the sampled action is '
+        'determined); hinted dict answers, proper (non-degenerate) PMFs, dr/dm modes, ope_loss, torch batches are outside the alphabet',
     ]
     TECHNIQUE = ('bounded-exhaustive enumeration of environments x 12 modes x record sets x learner formats on the real SequentialCB with a '
                  'recording learner vs. a plain-Python reference model of the documented loop (call trace and rows)')
@@ -178,7 +196,7 @@ class C06(Check):
     def cases(self, tier):
         # every environment of the tier with the quick record sets; thorough adds the other 118 record sets on the quick environments
         for env in environments(tier):
-            for lrn in learners(tier, env['batch']):
+            for lrn in learners(tier, env['batch'], env):
                 for learn in LEARNS:
                     for ev in EVALS:
                         yield {'env': env, 'learn': learn, 'eval': ev, 'lrn': lrn, 'records': 'quick'}
@@ -187,7 +205,8 @@ class C06(Check):
                 # record subsets are orthogonal to action/context recurrence: of F3 only the 0/1 <-> no-0/1 int pair gets all 128 subsets
                 if env.get('fam') == 'F3' and ('cseq' in env or not set(env['acts']) <= {'zo3', 'hi3'}): continue
                 if env.get('fam') == 'F4' and env['acts'] != ['cat', 'cat2']: continue
-                for lrn in learners('quick', env['batch']):
+                if env.get('fam') == 'F5' and env['acts'] not in (['z5'], ['5o', 'bin']): continue
+                for lrn in learners('quick', env['batch'], env):
                     for learn in LEARNS:
                         for ev in EVALS:
                             yield {'env': env, 'learn': learn, 'eval': ev, 'lrn': lrn, 'records': 'rest'}
